@@ -131,7 +131,7 @@ def run(ctx):
             schemas.append(gen.build(src))
             dist["relaxed_dicts"] += 1
         seed = fixed_seeds[q] if q < len(fixed_seeds) else r.choice([0, 1, 42, r.randrange(1 << 32), "seed", 3.5])
-        jobs.append({"seed": repr(seed), "schemas": sources, "repeat": 2})
+        jobs.append({"seed": repr(seed), "schemas": sources, "repeat": 2, "thread": q % 3 == 0})
         meta.append((seed, sources, schemas, any(has_negated_class(s) for s in schemas)))
         dist["sequences"] += 1
         dist["schemas"] += len(schemas)
@@ -144,10 +144,11 @@ def run(ctx):
         dist["negated_class"] += int(negated)
         for hs in hashseeds:
             res = outs[hs][q]
-            if res[0] != res[1]:
-                ctx.violation("repeating the seeded sequence in the same process gives different values",
+            if any(x != res[0] for x in res[1:]):
+                which = "in a worker thread of" if res[0] == res[1] else "in"
+                ctx.violation(f"repeating the seeded sequence {which} the same process gives different values",
                               {"kind": "history", "seed": repr(seed), "schemas": sources, "hashseeds": [hs],
-                               "observed": [res[0], res[1]]})
+                               "thread": bool(len(res) > 2), "observed": [r_[:3] for r_ in res]})
                 break
         ref = outs[hashseeds[0]][q][0]
         diff = [hs for hs in hashseeds if outs[hs][q][0] != ref]
@@ -206,5 +207,6 @@ def run(ctx):
 def replay(data):
     sources = data.get("schemas") or [data["schema"]]
     for hs in data.get("hashseeds", [0, 1]):
-        print("PYTHONHASHSEED", hs, run_children(hs, [{"seed": data["seed"], "schemas": sources, "repeat": 2}])[0])
+        print("PYTHONHASHSEED", hs, run_children(hs, [{"seed": data["seed"], "schemas": sources, "repeat": 2,
+                                                       "thread": data.get("thread", False)}])[0])
     return 0
